@@ -21,7 +21,7 @@ def main(argv):
     over = None
     if "--mutate" in argv:
         i = argv.index("--mutate")
-        f, old, new = argv[i + 1].split("::")
+        f, old, new = argv[i + 1].split("@@" if "@@" in argv[i + 1] else "::")
         argv = argv[:i] + argv[i + 2:]
         path = os.path.join(os.environ.get("PRAATIO_REPO", "/repo"), f)
         src = open(path).read()
